@@ -163,31 +163,42 @@ def run(ctx):
             continue
         loops.sort(key=lambda n: n.lineno)
         gl, sl = loops
+        xparam = f.params[0]
+        rets = [n for n in walk_no_nested(f.node) if isinstance(n, ast.Return)]
+        GAM = src(rets[0].value) if rets and all(isinstance(r.value, ast.Name) and src(r.value) == src(rets[0].value) for r in rets) else None
         i, j = (t.id for t in gl.target.elts)
         stores = [n for n in ast.walk(gl) if isinstance(n, ast.Assign)]
-        if len(stores) == 1 and src(stores[0].targets[0]) == 'x_sub[%s]' % i and src(stores[0].value) == 'x[%s]' % j:
-            d3.ok(k, 'gather: x_sub[i] <- x[index[i]]', f, gl)
+        okg = len(stores) == 1 and isinstance(stores[0].targets[0], ast.Subscript) and src(stores[0].targets[0].slice) == i \
+            and isinstance(stores[0].targets[0].value, ast.Name) and src(stores[0].value) == '%s[%s]' % (xparam, j)
+        XS = stores[0].targets[0].value.id if okg else None
+        # the gathered vector is what the group model is evaluated at
+        used = XS is not None and any(isinstance(n, ast.Call) and src(n.func) == 'group_activity_coefficients' and n.args and src(n.args[0]) == XS
+                                      for n in walk_no_nested(f.node))
+        if okg and used and XS != xparam:
+            d3.ok(k, 'gather: x_sub[i] <- x[index[i]] (and the group model is evaluated at x_sub)', f, gl)
         else:
             d3.fail(k, 'gather', 'the gather loop is not x_sub[i] = x[index[i]] (found %s)' % '; '.join(src(s) for s in stores), f, gl)
         i, j = (t.id for t in sl.target.elts)
         stores = [n for n in ast.walk(sl) if isinstance(n, ast.Assign) and isinstance(n.targets[0], ast.Subscript)]
-        vals = {src(n.targets[0]): src(n.value) for n in ast.walk(sl) if isinstance(n, ast.Assign) and isinstance(n.targets[0], ast.Name)}
-        okk = len(stores) == 1 and src(stores[0].targets[0]) == 'gamma[%s]' % j
+        vals = {src(n.targets[0]): n.value for n in ast.walk(sl) if isinstance(n, ast.Assign) and isinstance(n.targets[0], ast.Name)}
+        okk = len(stores) == 1 and GAM is not None and src(stores[0].targets[0]) == '%s[%s]' % (GAM, j)
         if okk:
-            v = src(stores[0].value)
-            v = vals.get(v, v)
-            okk = v == 'gamma_sub[%s]' % i
+            v = stores[0].value
+            v = vals.get(src(v), v)
+            # value is <result of group_activity_coefficients>[i]
+            gsub = {t.id for n in walk_no_nested(f.node) if isinstance(n, ast.Assign) and isinstance(n.value, ast.Call)
+                    and src(n.value.func) == 'group_activity_coefficients' for t in n.targets if isinstance(t, ast.Name)}
+            okk = isinstance(v, ast.Subscript) and src(v.value) in gsub and src(v.slice) == i
         if okk:
             d3.ok(k, 'scatter: gamma[index[i]] <- gamma_sub[i]', f, sl)
         else:
             d3.fail(k, 'scatter', 'the scatter loop is not gamma[index[i]] = gamma_sub[i]', f, sl)
-        init = [n for n in walk_no_nested(f.node) if isinstance(n, ast.Assign) and src(n.targets[0]) == 'gamma']
-        if init and src(init[0].value) == 'np.ones(x.size)':
+        init = [n for n in walk_no_nested(f.node) if isinstance(n, ast.Assign) and src(n.targets[0]) == GAM]
+        if init and src(init[0].value) == 'np.ones(%s.size)' % xparam:
             d3.ok(k, 'chemicals without groups default to gamma = 1', f, init[0])
         else:
             d3.fail(k, 'default', 'gamma is not initialised to ones of the full size', f, f.node)
-        rets = [n for n in walk_no_nested(f.node) if isinstance(n, ast.Return)]
-        if rets and all(src(r.value) == 'gamma' for r in rets):
+        if GAM is not None:
             d3.ok(k, 'returns the scattered gamma', f, rets[0])
         else:
             d3.fail(k, 'return', 'does not return gamma', f, f.node)
